@@ -9,7 +9,8 @@ import os
 from . import common as c
 
 SUPPORT = ["Enc/Prims.v", "Enc/Ty.v", "Enc/Val.v", "Enc/IR.v", "Enc/Compile.v", "Enc/JsonLite.v", "Enc/MapSort.v",
-           "Enc/VM.v", "Enc/Exec.v", "Enc/StdEnc.v"]
+           "Enc/VM.v", "Enc/Exec.v", "Enc/StdEnc.v", "Enc/CompileWf.v", "Enc/IntBridge.v",
+           "Enc/Sim.v", "Enc/Frag.v", "Enc/Steps.v", "Enc/EncProofs.v"]
 GENS = ["EncFlags"]
 
 VM_ENV = dict(c.GOENV)
@@ -57,12 +58,41 @@ def run_model(mexe, d, timeout=2400):
 
 
 def _run_model(mexe, d, timeout=2400):
+    """the request file is split into chunks (definition lines repeated) answered by parallel model processes"""
+    import subprocess
     inp = os.path.join(d, "model.in")
     outp = os.path.join(d, "model.out")
-    rc, o = c.sh("ulimit -s unlimited 2>/dev/null; %s < %s > %s" % (mexe, inp, outp), timeout=timeout, check=False)
-    if rc != 0:
-        return False, "model driver failed (rc=%d): %s" % (rc, o[-800:])
-    return True, ""
+    defs, reqs = [], []
+    with open(inp, errors="replace") as f:
+        for line in f:
+            (defs if line.startswith("D\t") else reqs).append(line)
+    k = max(1, min(8, (c.NCPU or 2) // 2, len(reqs) // 200 + 1))
+    size = (len(reqs) + k - 1) // k
+    procs = []
+    for i in range(k):
+        part = reqs[i * size:(i + 1) * size]
+        pi, po = "%s.%d" % (inp, i), "%s.%d" % (outp, i)
+        with open(pi, "w") as f:
+            f.writelines(defs)
+            f.writelines(part)
+        procs.append((subprocess.Popen("ulimit -s unlimited 2>/dev/null; %s < %s > %s" % (mexe, pi, po), shell=True,
+                                       stdout=subprocess.PIPE, stderr=subprocess.STDOUT), pi, po))
+    ok, msg = True, ""
+    with open(outp, "w") as out:
+        for pr, pi, po in procs:
+            try:
+                o, _ = pr.communicate(timeout=timeout)
+            except subprocess.TimeoutExpired:
+                pr.kill()
+                ok, msg = False, "model driver timed out"
+                continue
+            if pr.returncode != 0:
+                ok, msg = False, "model driver failed (rc=%d): %s" % (pr.returncode, (o or b"")[-800:].decode("utf8", "replace"))
+            if os.path.exists(po):
+                out.write(open(po, errors="replace").read())
+                os.remove(po)
+            os.remove(pi)
+    return ok, msg
 
 
 def load_impl(path):
